@@ -9,14 +9,14 @@ import (
 // context.Context model: cancelable objects; deadlines never fire by themselves.
 
 type ctxObj struct {
-	parent *ctxObj
-	done   *ChanObj
-	err    Value // Iface
-	key    Value
-	val    Value
-	hasKV  bool
+	parent   *ctxObj
+	done     *ChanObj
+	err      Value // Iface
+	key      Value
+	val      Value
+	hasKV    bool
 	children []*ctxObj
-	cause  Value
+	cause    Value
 }
 
 func (p *Path) newCtx(parent *ctxObj) (*ctxObj, Iface) {
